@@ -8,7 +8,9 @@ From GT Require Import Base.UTree Model.Reroot Model.Prune Model.Collapse Model.
      Proofs.HeapBase Proofs.HeapRep Proofs.HeapGood Proofs.HeapGoodRep Proofs.HeapOf Proofs.HeapReroot
      Proofs.HeapUnroot Proofs.HeapGraft Proofs.HeapCollapse Proofs.HeapPrune
      Proofs.HeapNocheck Proofs.HeapGraftSq Proofs.HeapPermute Proofs.HeapPruneTotal Proofs.HeapLoops Proofs.HeapRerootL
-     Proofs.HeapNNI Proofs.HeapNNIMain.
+     Proofs.HeapNNI Proofs.HeapNNIMain
+     Model.History Proofs.NNIBase Proofs.HeapCollapseTree Proofs.HeapPaths Proofs.HeapCollapseSq Proofs.HeapNNISq Proofs.HeapNNIUndoSq
+     Proofs.HeapPruneTree Proofs.HeapPruneSq Proofs.HeapRotateSq Proofs.HeapLoopsTotal Proofs.HeapHistory.
 Import ListNotations.
 Local Close Scope Q_scope.
 Local Open Scope string_scope.
@@ -490,3 +492,131 @@ Example C03Heap_run_nni :
   length (nni_list hx_deep) = 6.
 Proof. vm_compute. split; reflexivity. Qed.
 Print Assumptions C03Heap_run_nni.
+
+(** * Round 3: refinement squares against the tree models, and histories *)
+
+(** the model of one RemoveEdges step: contracting the k-th branch of Edges() is a local
+    rewriting at the upper end of the branch (pure tree fact, links [proc] to one step) *)
+Theorem C03Heap_remove_edges_single : forall rr rt k t p j, wf t = true -> nth_error (edge_locs t) k = Some (p, j) ->
+  at_path (contract_slot rr rt j) p t = Some (remove_edges_idx rr rt [k] t).
+Proof. exact remove_edges_single. Qed.
+Print Assumptions C03Heap_remove_edges_single.
+
+(** RemoveEdges on one branch: the square against Model/Collapse.v (always succeeds) *)
+Theorem C03Heap_remove_edge_square : forall rr rt h t k e, Good h -> abs h = Some t ->
+  (exists lt, dump h = Some lt /\ nth_error (leids lt) k = Some e) ->
+  exists h', remove_edge rr rt e h = HOk h' /\ Good h' /\ abs h' = Some (remove_edges_idx rr rt [k] t).
+Proof. exact remove_edge_square. Qed.
+Print Assumptions C03Heap_remove_edge_square.
+
+(** the loop of RemoveEdges over distinct branches of the tree never fails *)
+Theorem C03Heap_remove_edges_total : forall rr rt es h lt, Rep h lt -> NoDup es -> (forall e, In e es -> In e (leids lt)) ->
+  exists h', remove_edges_heap rr rt es h = HOk h' /\ Good h'.
+Proof. exact remove_edges_heap_total. Qed.
+Print Assumptions C03Heap_remove_edges_total.
+
+(** removeTip, the square against Model/Prune.v [remove_tip], error messages included: the
+    tip removed is the first tip of Tips() with that name ([find_tip]); the heap function
+    succeeds exactly when the model does, with the modelled tree, and otherwise fails with the
+    model's message *)
+Theorem C03Heap_remove_tip_square : forall nm h t P lt sub, Good h -> abs h = Some t -> dump h = Some lt ->
+  find_tip nm t = Some P -> lnode_at lt P = Some sub ->
+  match remove_tip nm t with
+  | Ok t' => exists h', remove_tip_heap nm (lid sub) h = HOk h' /\ Good h' /\ abs h' = Some t'
+  | Err m => remove_tip_heap nm (lid sub) h = HErr m
+  end.
+Proof. exact remove_tip_square. Qed.
+Print Assumptions C03Heap_remove_tip_square.
+
+(** the by-name search of the model is the path-guided removal (pure tree fact) *)
+Theorem C03Heap_remove_tip_find : forall nm t,
+  match find_tip nm t with
+  | None => remove_tip nm t = Err (err_not_tip nm)
+  | Some [] => remove_tip nm t = Err err_not_neighbor
+  | Some P => exists p j t1, P = (p ++ [j])%list /\ at_path (rm_slot j) p t = Some t1 /\ remove_tip nm t = after_root nm p t1
+  end.
+Proof. exact remove_tip_find. Qed.
+Print Assumptions C03Heap_remove_tip_find.
+
+(** removeTip on the leaf at a path: the square in its path form (any leaf, whatever its name) *)
+Theorem C03Heap_remove_tip_path : forall nm h lt p j x nmx cmx t1, Rep h lt ->
+  lnode_at lt (p ++ [j])%list = Some (LNode x nmx cmx [None]) -> at_path (rm_slot j) p (erase lt) = Some t1 ->
+  match after_root nm p t1 with
+  | Ok t' => exists h' lt', remove_tip_heap nm x h = HOk h' /\ Rep h' lt' /\ erase lt' = t'
+  | Err m => remove_tip_heap nm x h = HErr m
+  end.
+Proof. exact remove_tip_heap_path. Qed.
+Print Assumptions C03Heap_remove_tip_path.
+
+(** nni.Apply: the square against Model/NNI.v [apply] *)
+Theorem C03Heap_nni_apply_square : forall h lt r n1 n2 q hn1 hn2 ec edc sub, Rep h lt ->
+  alookup n1 (hnodes h) = Some hn1 -> alookup n2 (hnodes h) = Some hn2 ->
+  In (n2, ec) (slots_of hn1) -> alookup ec (hedges h) = Some edc -> hleft edc = n1 ->
+  length (hneigh hn1) = 3 -> length (hneigh hn2) = 3 ->
+  new_nni_heap h n1 n2 (r_cross r) = HOk q ->
+  lnode_at lt (r_path r) = Some sub -> lid sub = n1 ->
+  nth_error (hneigh hn1) (r_k r) = Some n2 -> nth_error (hneigh hn2) (r_j r) = Some n1 ->
+  exists h' lt', nni_apply_heap q h = HOk h' /\ Rep h' lt' /\ apply r (erase lt) = Some (erase lt').
+Proof. exact nni_apply_square. Qed.
+Print Assumptions C03Heap_nni_apply_square.
+
+(** nni.Undo after nni.Apply restores every record of the heap ... *)
+Theorem C03Heap_nni_apply_undo_id : forall h n1 n2 cross q hn1 hn2 ec edc, Good h ->
+  alookup n1 (hnodes h) = Some hn1 -> alookup n2 (hnodes h) = Some hn2 ->
+  In (n2, ec) (slots_of hn1) -> alookup ec (hedges h) = Some edc -> hleft edc = n1 ->
+  length (hneigh hn1) = 3 -> length (hneigh hn2) = 3 ->
+  new_nni_heap h n1 n2 cross = HOk q ->
+  exists h' h'', nni_apply_heap q h = HOk h' /\ Good h' /\ nni_undo_heap q h' = HOk h'' /\ same_heap h'' h.
+Proof. exact nni_apply_undo_id. Qed.
+Print Assumptions C03Heap_nni_apply_undo_id.
+
+(** ... hence the square of Undo on the state Apply leaves (with Proofs/NNIBase.v [undo_apply]) *)
+Theorem C03Heap_nni_apply_undo_square : forall h lt r n1 n2 q hn1 hn2 ec edc sub, Rep h lt ->
+  alookup n1 (hnodes h) = Some hn1 -> alookup n2 (hnodes h) = Some hn2 ->
+  In (n2, ec) (slots_of hn1) -> alookup ec (hedges h) = Some edc -> hleft edc = n1 ->
+  length (hneigh hn1) = 3 -> length (hneigh hn2) = 3 ->
+  new_nni_heap h n1 n2 (r_cross r) = HOk q ->
+  lnode_at lt (r_path r) = Some sub -> lid sub = n1 ->
+  nth_error (hneigh hn1) (r_k r) = Some n2 -> nth_error (hneigh hn2) (r_j r) = Some n1 ->
+  valid r (erase lt) ->
+  exists h' lt' h'', nni_apply_heap q h = HOk h' /\ Rep h' lt' /\ apply r (erase lt) = Some (erase lt') /\
+    nni_undo_heap q h' = HOk h'' /\ Rep h'' lt /\ undo r (erase lt') = Some (erase lt).
+Proof. exact nni_apply_undo_square. Qed.
+Print Assumptions C03Heap_nni_apply_undo_square.
+
+(** RotateInternalNodes: the square against Model/Reroot.v [rotate_all] (always succeeds) *)
+Theorem C03Heap_rotate_square : forall h t cs, Good h -> abs h = Some t ->
+  exists h', rotate_internal_nodes_heap cs h = HOk h' /\ Good h' /\ abs h' = Some (fst (rotate_all t cs)).
+Proof. exact rotate_internal_nodes_square. Qed.
+Print Assumptions C03Heap_rotate_square.
+
+(** one step of a heap history *)
+Theorem C03Heap_run_hop_square : forall o h t h', Good h -> abs h = Some t -> run_hop_heap o h = HOk h' ->
+  Good h' /\ exists t', run_hop_tree o t = Ok t' /\ abs h' = Some t'.
+Proof. exact run_hop_square. Qed.
+Print Assumptions C03Heap_run_hop_square.
+
+(** any history over {Reroot, reroot_nocheck, UnRoot, GraftTipOnEdge, RemoveEdges(one branch),
+    nni.Apply, removeTip(by name), RotateInternalNodes}: the heap stays good and represents
+    the tree the same history gives on the tree model *)
+Theorem C03Heap_history : forall ops h t h', Good h -> abs h = Some t -> run_heap ops h = HOk h' ->
+  Good h' /\ exists t', run_tree ops t = Ok t' /\ abs h' = Some t' /\ wf t' = true.
+Proof. exact heap_history. Qed.
+Print Assumptions C03Heap_history.
+
+(** the alphabet of these histories and Model/History.v agree where they overlap *)
+Theorem C03Heap_history_links : forall t,
+  (forall i, run_hop_tree (HReroot i) t = run_op (OReroot i) t) /\ run_hop_tree HUnroot t = run_op OUnroot t /\
+  (forall cs, run_hop_tree (HRotate cs) t = run_op (ORotate cs) t).
+Proof. intros t. repeat split; reflexivity. Qed.
+Print Assumptions C03Heap_history_links.
+
+(** a closed run: a mixed history on the heap of a six-tip tree, against the tree model *)
+Example C03Heap_run_mixed_history :
+  let ops := [HReroot 3; HRemoveTip "c"; HRotate [0;0;1;0;1;2;0;0;0;1;1;0;2;1]; HGraftTip "N" 2; HRemoveEdge false false 1; HUnroot; HRemoveTip "a"] in
+  match run_heap ops (heap_of hx_deep), run_tree ops hx_deep with
+  | HOk h', Ok t' => abs_is h' t'
+  | _, _ => false
+  end = true.
+Proof. vm_compute. reflexivity. Qed.
+Print Assumptions C03Heap_run_mixed_history.
